@@ -372,7 +372,7 @@ func ruleC01d(c *Ctx, rule string) {
 func init() {
 	register(&PropSpec{
 		ID:          "C01",
-		Explanation: "Decides the ingest wiring clause: one memstore update per accepted WAL entry (exact nil-key test), the three filters (retention, partition, WHERE) precede the store on every path, the period index comes from RoundTimeUp, nothing stored aliases the recycled WAL buffer, and a rejected entry still advances the offset. Added clauses: one row store insert per WAL entry with all values of an array-valued point applied next to the main value in one lock region; closures run twice by bytemap.Build do not accumulate (known finding K5); every follower entry passes the table's own partition test; = C10.c and the sorted-flush buffer-reuse clause of C03.b.",
+		Explanation: "Decides the ingest wiring clause: one memstore update per accepted WAL entry (exact nil-key test), the three filters (retention, partition, WHERE) precede the store on every path, the period index comes from RoundTimeUp, nothing stored aliases the recycled WAL buffer, and a rejected entry still advances the offset. Added clauses: one row store insert per WAL entry with all values of an array-valued point applied next to the main value in one lock region; closures run twice by bytemap.Build do not accumulate (known finding K5); every follower entry passes the table's own partition test; = C10.c and the sorted-flush buffer-reuse clause of C03.b. Further clauses: every sized expression's Update/Merge hands back the buffer advanced; file store and memstore copy are captured in one critical section (= C18.b).",
 		NotDecided:  []string{"numerical equality with a reference aggregator", "expression arithmetic and value coercions", "Sequence.UpdateValue offset arithmetic and Merge alignment (values)"},
 		Assumptions: []string{"go/ssa models control flow", "modsum external tables"},
 		Rules: []func(*Ctx){func(c *Ctx) { ruleC01a(c, "C01.a") }, func(c *Ctx) { ruleC01b(c, "C01.b") }, func(c *Ctx) { ruleC01c(c, "C01.c") }, func(c *Ctx) { ruleC01d(c, "C01.d") }, func(c *Ctx) { ruleC01f(c, "C01.f") }, func(c *Ctx) { ruleExprAdvances(c, "C01.h") }, func(c *Ctx) {
